@@ -38,11 +38,13 @@ def gen_program(rng):
         where = rng.choice(["obj", "obj", "arch", "exarch"])
         bind = rng.choice(["global", "global", "weak", "local"])
         vis = rng.choice(VIS) if bind != "local" else "default"
-        s = {"name": f"sym{i}", "where": where, "bind": bind, "vis": vis, "kind": rng.choice(["func", "object"]), "size": rng.choice([1, 4, 8, 24]),
+        s = {"name": f"sym{i}", "where": where, "bind": bind, "vis": vis, "kind": rng.choice(["func", "object", "object", "abs"]), "size": rng.choice([1, 4, 8, 24]),
              "vs_local": rng.random() < 0.2, "export_list": rng.random() < 0.2, "dso_ref": False, "referenced": rng.random() < 0.8}
-        if bind != "local" and vis in ("default", "protected") and where != "exarch" and not s["vs_local"] and rng.random() < 0.3:
+        if s["kind"] == "abs":
+            s["where"] = "obj"
+        if bind != "local" and vis in ("default", "protected") and s["where"] != "exarch" and not s["vs_local"] and rng.random() < 0.3:
             s["dso_ref"] = True
-        if where != "obj":
+        if s["where"] != "obj":
             s["referenced"] = True          # archive members are pulled in by a reference
         syms.append(s)
     imports = [{"name": f"imp{i}", "referenced": rng.random() < 0.7} for i in range(rng.randrange(1, 4))]
@@ -52,6 +54,15 @@ def gen_program(rng):
 def write_sources(d, syms, imports):
     def body(s):
         lines = []
+        if s["kind"] == "abs":
+            if s["bind"] == "global":
+                lines.append(f".globl {s['name']}")
+            elif s["bind"] == "weak":
+                lines.append(f".weak {s['name']}")
+            if s["vis"] != "default":
+                lines.append(f".{s['vis']} {s['name']}")
+            lines.append(f"{s['name']} = {0x1000 + int(s['name'][3:]) * 16}")
+            return lines
         sec = (".text." if s["kind"] == "func" else ".data.") + s["name"]
         lines.append(f'.section {sec},"{"ax" if s["kind"] == "func" else "aw"}",@progbits')
         if s["bind"] == "global":
@@ -76,13 +87,15 @@ def write_sources(d, syms, imports):
     # locals must be referenced from their own file
     main = ['.section .text._start,"ax",@progbits', ".globl _start", ".type _start,@function", "_start:"]
     for s in syms:
-        if s["where"] == "obj" and s["referenced"]:
+        if s["where"] == "obj" and s["referenced"] and s["kind"] == "abs":
+            main.append(f" mov ${s['name']}, %rax" if False else f" .quad 0" if False else " nop")
+        elif s["where"] == "obj" and s["referenced"]:
             main.append(f" lea {s['name']}(%rip), %rax" if s["bind"] == "local" or s["vis"] != "default" else f" mov {s['name']}@GOTPCREL(%rip), %rax")
     open(f"{d}/obj.s", "w").write("\n".join(per["obj"] + main + [" call arch_anchor@PLT" if per["arch"] else "", " call exarch_anchor@PLT" if per["exarch"] else ""] +
                                               [f" mov {i['name']}@GOTPCREL(%rip), %rax" for i in imports if i["referenced"]] + [" ret", ""]))
     for w in ("arch", "exarch"):
         if per[w]:
-            refs = [f" lea {s['name']}(%rip), %rax" if s["vis"] != "default" or s["bind"] == "local" else f" mov {s['name']}@GOTPCREL(%rip), %rax" for s in syms if s["where"] == w]
+            refs = [" nop" if s["kind"] == "abs" else f" lea {s['name']}(%rip), %rax" if s["vis"] != "default" or s["bind"] == "local" else f" mov {s['name']}@GOTPCREL(%rip), %rax" for s in syms if s["where"] == w]
             open(f"{d}/{w}.s", "w").write("\n".join(per[w] + ['.section .text.anchor,"ax",@progbits', f".globl {w}_anchor", f".type {w}_anchor,@function", f"{w}_anchor:"] + refs + [" ret", ""]))
     # the shared library: defines the imports, refers to the dso_ref symbols
     lib = ['.text', ".globl libfn", ".type libfn,@function", "libfn:"] + [f" mov {s['name']}@GOTPCREL(%rip), %rax" for s in syms if s["dso_ref"]] + [" ret", ".data"]
